@@ -9,8 +9,10 @@
     the source connection ID of the packets, tls.Config.ServerName, then the observables: the
     spec's parameter list / key shares / server name AFTER the dial, extension 57 as read off
     the wire, server_name on the wire.
-    [NilSpec]: first flight of UTransport{QUICSpec: nil} and of Transport (datagram sizes,
-    transport parameters): the model of u_dial None is plain_dial, so they must agree.
+    [NilSpec]: first flight of UTransport{QUICSpec: nil} and of Transport under the same (random)
+    Config: datagram sizes, transport parameters, and a feature list (packet numbers and their
+    lengths, ClientHello extension ids in order, key share groups and lengths, cipher suites, SNI /
+    source connection ID / token lengths): the model of u_dial None is plain_dial, so they agree.
     [Retx]: the real uPacketPacker driven packet by packet (harness/quic/udial.go): the first
     flight as (packet number, CRYPTO frames), then losses / acknowledgements through the frames'
     own handlers and packing calls (regular, PTO probe, PTO probe with addPingIfEmpty), each with
@@ -48,7 +50,8 @@ Inductive regstep := GStep (o : regop) (obs : list (Z * Z * Z)).
 
 Inductive case :=
 | Seq (ps0 : list rp) (keys0 : list (Z * Z)) (sni0 : string) (steps : list step)
-| NilSpec (sizesU : list Z) (tpU : list (Z * string)) (sizesP : list Z) (tpP : list (Z * string))
+| NilSpec (sizesU : list Z) (tpU : list (Z * string)) (featU : list Z)
+          (sizesP : list Z) (tpP : list (Z * string)) (featP : list Z)
 | Retx (n : Z) (planned : bool) (layout : option (list lframe)) (flight : list (Z * list (Z * Z))) (ops : list rop)
 | Reg (steps : list regstep).
 
@@ -157,7 +160,7 @@ Fixpoint reg_ok (st : rgstate) (steps : list regstep) : bool :=
 Definition model_obs (c : case) : obs :=
   match c with
   | Seq ps0 keys0 sni0 steps => replay (Spec (mkps ps0) None (map mkkey keys0) (hx sni0) [] false) steps
-  | NilSpec _ _ _ _ => ONil
+  | NilSpec _ _ _ _ _ _ => ONil
   | Retx n planned layout flight ops => ORetx (retx_ok planned layout (RS flight [] []) ops)
   | Reg steps => ORetx (reg_ok (RG [] []) steps)
   end.
@@ -208,7 +211,7 @@ Fixpoint steps_ok (m : list step_obs) (s : list step) : bool :=
 Definition check_case (c : case) : bool :=
   match c, model_obs c with
   | Seq _ _ _ steps, OSeq l => steps_ok l steps
-  | NilSpec su tu sp tp, ONil => zeqb_list su sp && zs_eqb_str tu tp
+  | NilSpec su tu fu sp tp fp, ONil => zeqb_list su sp && zs_eqb_str tu tp && zeqb_list fu fp
   | Retx _ _ _ _ _, ORetx ok => ok
   | Reg _, ORetx ok => ok
   | _, _ => false
